@@ -288,14 +288,23 @@ class World:
 
     def dyn_channel(self, proto, dev):
         if proto == 'sdp':
-            return self.sdp_client.channel if dev == 0 else self.devs[1].sdp_server.channel
-        if proto == 'rfcomm':
-            return self.mux.l2cap_channel if dev == 0 else self.server_dlc.multiplexer.l2cap_channel
-        if proto == 'avdtp':
-            return self.avdtp_client.l2cap_channel if dev == 0 else self.avdtp_servers[0].l2cap_channel
-        if proto == 'avctp':
-            return self.avctp_client.l2cap_channel if dev == 0 else self.avctp_servers[0].l2cap_channel
-        raise KeyError(proto)
+            ch = self.sdp_client.channel
+        elif proto == 'rfcomm':
+            ch = self.mux.l2cap_channel
+        elif proto == 'avdtp':
+            ch = self.avdtp_client.l2cap_channel
+        elif proto == 'avctp':
+            ch = self.avctp_client.l2cap_channel
+        else:
+            raise KeyError(proto)
+        if dev == 0:
+            return ch
+        # the server-side end: the channel of device 1 whose destination is the client's CID
+        h = self.conn['br'][1].handle
+        for c in self.devs[1].l2cap_channel_manager.channels.get(h, {}).values():
+            if c.destination_cid == ch.source_cid:
+                return c
+        raise KeyError(f'no server-side channel for {proto}')
 
     # ---- observables
     def connections_ok(self):
@@ -331,15 +340,14 @@ class World:
 
     async def ref_sdp(self, fresh=False):
         from bumble import sdp
-        client = self.sdp_client
         if fresh:
+            # a new client session replaces the old one (the old channel is left alone)
             client = sdp.Client(self.conn['br'][0])
             r = await bounded(client.connect())
             if r[0] != 'ok':
                 return f'SDP connect -> {r}'
-        r = await bounded(client.search_services([self.sdp_uuid]))
-        if fresh:
-            await bounded(client.disconnect())
+            self.sdp_client = client
+        r = await bounded(self.sdp_client.search_services([self.sdp_uuid]))
         return None if r == ('ok', [self.sdp_handle]) else f'SDP search ({"fresh" if fresh else "open"} channel) -> {r}'
 
     async def ref_at(self):
@@ -376,6 +384,14 @@ class World:
         await idle(REF_ROUNDS)
         return None if self.avctp_rx[n:] == [(5, b'\x03\x02\x01')] else f'AVCTP -> {self.avctp_rx[n:]}'
 
+    async def ref_pair(self):
+        r = await bounded(self.conn['le'][0].pair(), 4000)
+        if r != ('ok', None):
+            return f'pairing -> {r}'
+        if not (self.conn['le'][0].is_encrypted and self.conn['le'][1].is_encrypted):
+            return 'pairing completed but the link is not encrypted'
+        return None
+
     async def reference(self, which):
         """Run the named reference requests; returns the first failure as (name, text)."""
         for name in which:
@@ -397,6 +413,8 @@ class World:
                 bad = await self.ref_avdtp()
             elif name == 'avctp':
                 bad = await self.ref_avctp()
+            elif name == 'pair':
+                bad = await self.ref_pair()
             else:
                 raise KeyError(name)
             if bad:
@@ -446,7 +464,13 @@ class World:
             dlc = self.client_dlc if dev == 0 else self.server_dlc
             # frames received by the responder carry C/R as set by the initiator and vice versa
             c_r = 0 if dev == 0 else 1
-            frame = rfcomm.RFCOMM_Frame.uih(c_r=c_r, dlci=dlc.dlci, information=bytes.fromhex(op['data']))
+            # the hostile bytes end with the line delimiter of their direction, so that the
+            # reference request that follows starts on a line boundary of the byte stream
+            data = bytes.fromhex(op['data'])
+            term = b'\r' if dev == 1 else b'\r\n'
+            if not data.endswith(term):
+                data += term
+            frame = rfcomm_frame(0xEF, c_r, dlc.dlci, 0, data)
             handle = self.handle('br', dev)
             cid = self.dyn_cid('rfcomm', dev)
             self.devs[dev].host.on_packet(self.acl(handle, 2, 0, self.l2cap_frame(cid, bytes(frame))))
@@ -476,3 +500,1362 @@ def op_entry(op):
 def _hci_kind(op):
     b = op['data'][:2]
     return {'01': 'command', '02': 'acl', '03': 'sco', '04': 'event', '05': 'iso'}.get(b, 'other')
+
+
+# ----------------------------------------------------------------------------- seeds
+def world_layout(w):
+    return {'dlci': w.client_dlc.dlci,
+            'live_cids': sorted({w.dyn_cid(p, d) for p in ('sdp', 'rfcomm', 'avdtp', 'avctp') for d in (0, 1)}),
+            'live_handles': sorted({w.handle(c, d) for c in ('le', 'br') for d in (0, 1)})}
+
+
+async def record_seeds():
+    """Build a world with recording hooks installed from the start; return a JSON-able
+    seed table: {'hci': [[hex...],[hex...]], 'chan': {key: [hex...]}}."""
+    w = World()
+    rec = {'hci': [[], []], 'l2': [[], []]}
+
+    class Snoop:
+        def __init__(self, i):
+            self.i = i
+
+        def snoop(self, data, direction):
+            if int(direction) == 1:       # CONTROLLER_TO_HOST
+                rec['hci'][self.i].append(bytes(data))
+
+    await w.build()
+    for i in (0, 1):
+        w.devs[i].host.snooper = Snoop(i)
+        w.devs[i].host.on('l2cap_pdu', (lambda i: lambda h, c, p: rec['l2'][i].append((h, c, bytes(p))))(i))
+    # a second round of every protocol exchange, now recorded
+    await w.reference(['att', 'echo.le', 'echo.br', 'sdp', 'at', 'avdtp', 'avctp'])
+    await bounded(w.peer.discover_services())
+    await bounded(w.sdp_client.search_attributes([w.sdp_uuid], [(0, 0xFFFF)]))
+    await bounded(w.avdtp_client.get_capabilities(1))
+    if w.hf is not None:
+        await bounded(w.hf.execute_command('AT+CIND?', timeout=100000.0))
+    await bounded(w.conn['le'][0].pair(), 4000)
+    await idle()
+    chan = {}
+    cidmap = [{}, {}]
+    for dev in (0, 1):
+        for p in ('sdp', 'rfcomm', 'avdtp', 'avctp'):
+            cidmap[dev][(w.handle('br', dev), w.dyn_cid(p, dev))] = p
+    for dev in (0, 1):
+        for h, c, p in rec['l2'][dev]:
+            if (h, c) in cidmap[dev]:
+                key = f'{cidmap[dev][(h, c)]}.{dev}'
+            else:
+                conn = 'le' if h == w.handle('le', dev) else 'br'
+                key = f'cid{c}.{conn}.{dev}'
+            chan.setdefault(key, [])
+            if p.hex() not in chan[key]:
+                chan[key].append(p.hex())
+    seeds = {'hci': [sorted(set(x.hex() for x in rec['hci'][i])) for i in (0, 1)], 'chan': chan,
+             'layout': world_layout(w)}
+    for i in (0, 1):
+        w.devs[i].host.snooper = None
+    return seeds
+
+
+# ----------------------------------------------------------------------------- generators
+AT_COMMANDS = ['AT+BRSF=127', 'AT+BAC=1,2', 'AT+CIND=?', 'AT+CIND?', 'AT+CMER=3,0,0,1', 'AT+CHLD=?',
+               'AT+BIND=1,2', 'AT+BIND=?', 'AT+BIND?', 'AT+CMEE=1', 'AT+VGS=7', 'AT+VGM=3', 'AT+CLIP=1',
+               'AT+CCWA=1', 'AT+BIA=1,1,0,1', 'AT+BCS=1', 'AT+BVRA=1', 'AT+CHUP', 'ATA', 'ATD123;', 'AT+CLCC',
+               'AT+COPS=3,0', 'AT+COPS?', 'AT+CNUM', 'AT+NREC=0', 'AT+BCC', 'AT+BIEV=1,1', 'AT+CHLD=1',
+               'AT+VTS=1', 'AT+BLDN', 'AT+XAPL=ABCD-1234-0100,10']
+AT_RESPONSES = ['OK', 'ERROR', '+BRSF: 1023', '+CIND: ("call",(0,1)),("service",(0,1))', '+CIND: 0,1,0,0,5,0,5',
+                '+CHLD: (0,1,2,3)', '+BIND: (1,2)', '+BIND: 1,1', '+CIEV: 1,1', '+VGS: 7', '+VGM: 3', 'RING',
+                '+CLIP: "1234",129', '+CME ERROR: 30', '+BCS: 2', '+BVRA: 1', '+CLCC: 1,0,0,0,0,"1234",129',
+                '+CCWA: "1234",129', '+COPS: 0,0,"op"', '+BSIR: 1', 'NO CARRIER', 'BUSY', '+CNUM: ,"5551212",129,,4']
+
+
+def mutate(rng, b, length_offsets=()):
+    """One of: truncate / extend / bit flips / byte overwrite / length-field tamper / splice."""
+    b = bytearray(b)
+    r = rng.below(100)
+    if r < 18 and b:
+        del b[rng.below(len(b) + 1):]
+        kind = 'truncate'
+    elif r < 34:
+        b += rng.bytes(rng.choice([1, 1, 2, 3, 8, 40, 300]))
+        kind = 'extend'
+    elif r < 56 and b:
+        for _ in range(rng.choice([1, 1, 2, 3, 8])):
+            i = rng.below(len(b))
+            b[i] ^= 1 << rng.below(8)
+        kind = 'bitflip'
+    elif r < 70 and b:
+        for _ in range(rng.choice([1, 1, 2])):
+            b[rng.below(len(b))] = rng.choice([0, 0, 1, 0x7F, 0x80, 0xFF, 0xFF, rng.below(256)])
+        kind = 'byteset'
+    elif r < 90 and length_offsets:
+        off, size = rng.choice(list(length_offsets))
+        v = rng.choice([0, 0, 1, 2, 0xFF, 0xFFFF, 0xFFFFFFFF, len(b), max(0, len(b) - 1), len(b) + 1, rng.below(70000)])
+        v &= (1 << (8 * abs(size))) - 1
+        enc = v.to_bytes(abs(size), 'little' if size > 0 else 'big')
+        if off + abs(size) <= len(b):
+            b[off:off + abs(size)] = enc
+        else:
+            b += enc
+        kind = 'length'
+    else:
+        i = rng.below(len(b) + 1)
+        b[i:i] = rng.bytes(rng.choice([1, 2, 4]))
+        if b and rng.chance(1, 2):
+            j = rng.below(len(b))
+            del b[j:j + rng.choice([1, 2, 4])]
+        kind = 'splice'
+    return bytes(b), kind
+
+
+def nested_sdp(depth, leaf=b'\x08\x01', wide=False):
+    """DataElement sequences nested `depth` deep around `leaf` (size descriptors as needed)."""
+    body = leaf
+    for i in range(depth):
+        n = len(body)
+        t = 0x35 if i % 2 == 0 or not wide else 0x3D     # SEQUENCE / ALTERNATIVE
+        if n <= 0xFF:
+            body = bytes([t, n]) + body
+        elif n <= 0xFFFF:
+            body = bytes([t + 1]) + n.to_bytes(2, 'big') + body
+        else:
+            body = bytes([t + 2]) + n.to_bytes(4, 'big') + body
+    return body
+
+
+def overrun_sdp(levels, tail):
+    """Containers whose child declares a larger size than its parent has (the child's bytes
+    are then parsed again by every enclosing level)."""
+    body = tail
+    for _ in range(levels):
+        c = bytes([0x36]) + len(body).to_bytes(2, 'big') + body
+        body = bytes([0x35, 3]) + c
+    return bytes([0x36]) + len(body).to_bytes(2, 'big') + body
+
+
+def sdp_pdu(pdu_id, tid, params, plen=None):
+    return bytes([pdu_id]) + struct.pack('>HH', tid, len(params) if plen is None else plen) + params
+
+
+def gen_sdp_hostile(rng):
+    """SDP request/response PDUs carrying hostile data elements."""
+    r = rng.below(100)
+    if r < 35:
+        depth = rng.choice([1, 2, 31, 32, 33, 34, 40, 41, 64, 100, 150, 300, 600])
+        elem = nested_sdp(depth, rng.choice([b'\x19\x11\x01', b'\x08\x01', b'\x00', b'']), rng.chance(1, 2))
+        kind = f'nest{depth}'
+    elif r < 50:
+        levels = rng.choice([1, 2, 3, 5, 8, 11, 14, 15])
+        elem = overrun_sdp(levels, bytes([0x00]) * rng.choice([1, 8, 50]))
+        kind = f'overrun{levels}'
+    elif r < 75:
+        # every type x every size-descriptor form with a short / absent / oversize body
+        t = rng.below(32)
+        si = rng.below(8)
+        hdr = bytes([t << 3 | si])
+        size = rng.choice([0, 1, 2, 3, 200, 0xFFFF, 0xFFFFFFFF])
+        if si == 5:
+            hdr += bytes([size & 0xFF])
+        elif si == 6:
+            hdr += (size & 0xFFFF).to_bytes(2, 'big')
+        elif si == 7:
+            hdr += (size & 0xFFFFFFFF).to_bytes(4, 'big')
+        if rng.chance(1, 5):
+            hdr = hdr[:rng.below(len(hdr)) + 1]
+        elem = hdr + rng.bytes(rng.choice([0, 0, 1, 2, 4, 8, 16, 17]))
+        if rng.chance(1, 2):
+            elem = bytes([0x35, len(elem) & 0xFF]) + elem
+        kind = f'type{t}.size{si}'
+    else:
+        elem = rng.bytes(rng.choice([0, 1, 2, 5, 20]))
+        kind = 'random-element'
+    pid = rng.choice([2, 4, 6, 6, 3, 5, 7, 1])
+    tid = rng.below(65536)
+    if pid == 2:
+        params = elem + b'\x00\x10\x00'
+    elif pid == 4:
+        params = struct.pack('>IH', 0x00010001, 0xFFFF) + elem + b'\x00'
+    elif pid == 6:
+        if rng.chance(1, 2):
+            params = elem + b'\xff\xff' + b'\x35\x05\x0a\x00\x00\xff\xff' + b'\x00'
+        else:
+            params = b'\x35\x03\x19\x11\x01' + b'\xff\xff' + elem + b'\x00'
+    elif pid in (5, 7):
+        params = struct.pack('>H', len(elem) & 0xFFFF) + elem + b'\x00'
+    else:
+        params = elem
+    return sdp_pdu(pid, tid, params), 'sdp.' + kind
+
+
+def rfcomm_frame(control, c_r, dlci, p_f, info):
+    """An RFCOMM frame built by hand (TS 07.10 layout, 1- or 2-byte length, correct FCS)."""
+    from bumble import rfcomm
+    head = bytes([dlci << 2 & 0xFC | c_r << 1 | 1, control | p_f << 4])
+    n = len(info)
+    length = bytes([n << 1 | 1]) if n < 128 else bytes([(n & 0x7F) << 1, n >> 7 & 0xFF])
+    fcs = rfcomm.compute_fcs(head + (b'' if control == 0xEF else length))
+    return head + length + info + bytes([fcs])
+
+
+def fix_fcs(frame):
+    """Recompute the RFCOMM FCS of a (mutated) frame so that it passes the check."""
+    from bumble import rfcomm
+    if len(frame) < 4:
+        return frame
+    ctrl = frame[1] & 0xEF
+    n = 2 if ctrl == 0xEF else 3
+    if not frame[2] & 1:
+        n = n if ctrl == 0xEF else 4
+    fcs = rfcomm.compute_fcs(frame[:n])
+    return frame[:-1] + bytes([fcs])
+
+
+def gen_at_hostile(rng, to_ag):
+    base = rng.choice(AT_COMMANDS if to_ag else AT_RESPONSES)
+    term = '\r' if to_ag else '\r\n'
+    lead = '' if to_ag else '\r\n'
+    r = rng.below(100)
+    kind = 'at.'
+    if r < 12:
+        line = base
+        kind += 'valid'
+    elif r < 24:
+        line = base + rng.choice(['(', ')', '((', '))', '"', ',(', '()', '(1', '1)', '"a', 'a"b', ',,', '(,)', '"(",")"'])
+        kind += 'paren-quote'
+    elif r < 34:
+        line = base.replace('=', rng.choice(['==', '=?=', '?', '=(', '="', ''])).replace(':', rng.choice([':', '::', '']))
+        kind += 'separator'
+    elif r < 44:
+        n = rng.choice([1, 2, 30, 200])
+        line = base + '(' * n + '1' + ')' * rng.choice([0, n - 1, n, n + 1])
+        kind += 'nested-paren'
+    elif r < 52:
+        line = base + ',' + '9' * rng.choice([20, 400, 3000])
+        kind += 'long'
+    elif r < 60:
+        line = base.lower() if rng.chance(1, 2) else 'AT' + base[3:]
+        kind += 'case'
+    elif r < 68:
+        line = rng.choice(['', 'AT', 'AT+', 'A', 'T', '+', 'AT+=', 'AT+1=1', 'ATA1', 'ATD', 'AT+CMEE', 'AT+CMEE=', 'AT+CMEE=a',
+                           'AT+CMEE=1,2,3', 'AT+BRSF=', 'AT+BRSF=x', 'AT+BAC=', 'AT+BIND=a', 'AT+CHLD=9', 'AT+BCS=9',
+                           'AT+BIA=', 'AT+VGS=(1', ':', '+:', '+BRSF:', '+BRSF: x', '+CIND: (', '+CIEV: 99,1', '+CIEV: a',
+                           '+BCS: x', '+CME ERROR: x', 'OK:1'])
+        kind += 'degenerate'
+    else:
+        data, k = mutate(rng, (lead + base + term).encode(), ())
+        return data, 'at.bytes-' + k
+    raw = (lead + line + term).encode()
+    r2 = rng.below(10)
+    if r2 == 0:
+        raw = raw[:-1]                       # unterminated
+    elif r2 == 1:
+        raw = raw + raw                      # batched
+    elif r2 == 2:
+        raw = raw.replace(b'\r', b'\r\r')
+    elif r2 == 3:
+        raw = bytes([0xFF, 0xFE]) + raw      # not UTF-8
+    return raw, kind
+
+
+def _registry(rng):
+    """Code points of every registered PDU class, per layer (read from the modules)."""
+    from bumble import att, hci, l2cap, smp
+    return {
+        'att': sorted(int(k) for k in att.ATT_PDU.pdu_classes),
+        'smp': sorted(int(k) for k in smp.SMP_Command.smp_classes),
+        'sig': sorted(int(k) for k in l2cap.L2CAP_Control_Frame.classes),
+        'evt': sorted(int(k) for k in hci.HCI_Event.event_classes),
+        'le': sorted(int(k) for k in hci.HCI_LE_Meta_Event.subevent_classes),
+    }
+
+
+class Gen:
+    """Case generator; every choice comes from rng.  A case is JSON: target name, ops, the
+    reference requests to run afterwards, source tag."""
+
+    def __init__(self, rng, seeds, layout=None):
+        self.rng = rng
+        self.seeds = seeds
+        self.reg = _registry(rng)
+        layout = layout or seeds['layout']
+        self.dlci = layout['dlci']
+        self.live_cids = list(layout['live_cids'])
+        self.live_handles = list(layout['live_handles'])
+
+    # ---- payload builders per channel
+    def body(self, n=None):
+        rng = self.rng
+        n = rng.choice([0, 1, 2, 3, 4, 6, 7, 10, 16, 17, 22, 23, 24, 64]) if n is None else n
+        style = rng.below(4)
+        if style == 0:
+            return bytes(n)
+        if style == 1:
+            return bytes([0xFF]) * n
+        if style == 2:
+            # plausible little fields: small handles, small lengths
+            return bytes(rng.choice([0, 1, 2, 3, 4, 0x10, 0x40, 0xFF]) for _ in range(n))
+        return rng.bytes(n)
+
+    def payload_for(self, chan_key, family):
+        """-> (bytes, source tag). family: att|smp|sig|sdp|rfcomm|avdtp|avctp|other"""
+        rng = self.rng
+        seeds = self.seeds['chan'].get(chan_key, [])
+        r = rng.below(100)
+        if r < 10:
+            return rng.bytes(rng.choice([0, 1, 2, 3, 5, 9, 24, 70, 300])), 'random'
+        if r < 45 and seeds:
+            s = bytes.fromhex(rng.choice(seeds))
+            out, k = mutate(rng, s, self.length_offsets(family, s))
+            if family == 'rfcomm' and rng.chance(1, 2):
+                out = fix_fcs(out)
+                k += '+fcs'
+            return out, 'recorded-' + k
+        # one PDU of a registered class, then (usually) mutated
+        if family == 'att':
+            b = bytes([rng.choice(self.reg['att'])]) + self.body()
+        elif family == 'smp':
+            code = rng.choice(self.reg['smp'])
+            b = bytes([code]) + self.body(rng.choice([0, 1, 6, 15, 16, 17, 64, 65]))
+        elif family == 'sig':
+            code = rng.choice(self.reg['sig'] + [0, 0x1B, 0xFF])
+            body = self.body()
+            if code in (2, 3, 4, 5, 6, 7, 0x14, 0x15, 0x16, 0x17) and rng.chance(2, 3):
+                # name plausible CIDs / PSMs so that handlers go beyond the lookup
+                cids = [0x40, 0x41, 0x42, 0x43, 0x44, 0x45, 0, 1, 0xFFFF]
+                body = struct.pack('<HH', rng.choice(cids + [1, 3, 0x19, 0x17, 0x1001]), rng.choice(cids)) + self.body(rng.choice([0, 2, 4, 6, 12]))
+            b = bytes([code, rng.below(256)]) + struct.pack('<H', len(body)) + body
+            b = self.defuse_signalling(b)
+        elif family == 'sdp':
+            if rng.chance(3, 5):
+                return gen_sdp_hostile(rng)
+            b = sdp_pdu(rng.choice([1, 2, 3, 4, 5, 6, 7, 0, 8, 0xFF]), rng.below(65536), self.body())
+        elif family == 'rfcomm':
+            dlci = rng.choice([0, 0, self.dlci, self.dlci, rng.below(64)])
+            t = rng.below(7)
+            c_r = rng.below(2)
+            if t == 0:
+                b = rfcomm_frame(0xEF, c_r, dlci, rng.below(2), self.body(rng.choice([0, 1, 5, 126, 127, 128, 300])))
+            elif t == 1:
+                b = rfcomm_frame(0x63, c_r, dlci, 1, b'')
+            elif t == 2:
+                mtype = rng.choice([0x20, 0x38, 0x08, 0x04, 0x24, 0x10, 0x3F])
+                val = self.body(rng.choice([0, 1, 2, 7, 8, 9]))
+                mcc = bytes([mtype << 2 | rng.below(2) << 1 | 1, (len(val) << 1 | 1) & 0xFF]) + val
+                b = rfcomm_frame(0xEF, c_r, 0, 0, mcc)
+            elif t == 3:
+                b = rfcomm_frame(0x03, c_r, dlci, rng.below(2), self.body(4))
+            elif t == 4:
+                # SABM / DISC / DM are protocol-valid open/close requests: only ever sent damaged
+                raw = bytearray(rfcomm_frame(rng.choice([0x2F, 0x43, 0x0F]), c_r, dlci, 1, b''))
+                raw[-1] ^= 1 << rng.below(8)            # bad FCS
+                return bytes(raw), 'class-badfcs'
+            else:
+                raw = bytes([rng.below(256), rng.choice([0xEF, 0xFF, 0x03, 0x63, 0x73, rng.below(256)]), rng.below(256)]) + self.body()
+                return (fix_fcs(raw) if self.safe_rfcomm(raw) else raw), 'class-rawhdr'
+            if rng.chance(1, 2):
+                out, k = mutate(rng, b, ((2, 1),))
+                if rng.chance(1, 2) and self.safe_rfcomm(out):
+                    out = fix_fcs(out)
+                    k += '+fcs'
+                return out, 'class-' + k
+            return b, 'class-valid'
+        elif family == 'avdtp':
+            label = rng.below(16)
+            ptype = rng.below(4)
+            mtype = rng.below(4)
+            sig = rng.choice(list(range(0, 16)) + [0x3F])
+            hdr = bytes([label << 4 | ptype << 2 | mtype])
+            if ptype == 0:
+                b = hdr + bytes([sig]) + self.body(rng.choice([0, 1, 2, 3, 8, 20]))
+            elif ptype == 1:
+                b = hdr + bytes([sig, rng.choice([0, 1, 2, 3, 255])]) + self.body(rng.choice([0, 1, 8]))
+            else:
+                b = hdr + self.body(rng.choice([0, 1, 8]))
+        elif family == 'avctp':
+            label = rng.below(16)
+            ptype = rng.below(4)
+            hdr = bytes([label << 4 | ptype << 2 | rng.below(4)])
+            pid = rng.choice([AVCTP_PID, AVCTP_PID, 0, 0xFFFF, rng.below(65536)])
+            if ptype == 1:
+                b = hdr + bytes([rng.choice([0, 1, 2, 3, 255])]) + struct.pack('>H', pid) + self.body(rng.choice([0, 1, 8]))
+            else:
+                b = hdr + struct.pack('>H', pid) + self.body(rng.choice([0, 1, 8]))
+        else:
+            b = self.body()
+        if rng.chance(1, 2):
+            out, k = mutate(rng, b, self.length_offsets(family, b))
+            if family == 'sig':
+                out = self.defuse_signalling(out)
+            return out, 'class-' + k
+        return b, 'class-valid'
+
+    def safe_rfcomm(self, raw):
+        """False for frames that (with a good FCS) are protocol-valid open/close requests."""
+        return len(raw) >= 2 and (raw[1] & 0xEF) not in (0x2F, 0x43, 0x0F)
+
+    def length_offsets(self, family, b):
+        return {'sig': ((2, 2),), 'sdp': ((3, -2), (5, -2), (6, 1)), 'rfcomm': ((2, 1),), 'avdtp': ((2, 1),),
+                'avctp': ((1, 1),), 'att': ((1, 1),), 'smp': ()}.get(family, ())
+
+    def defuse_signalling(self, b):
+        """Signalling requests that are protocol-valid ways of closing or re-configuring an
+        open channel, or of opening a second SDP channel, are legitimate state changes, not
+        hostile input: re-aim them at a CID / PSM that is not live."""
+        if len(b) < 8:
+            return b
+        code = b[0]
+        f1, f2 = struct.unpack_from('<HH', b, 4)
+        b = bytearray(b)
+        if code in (0x06, 0x07) and (f1 in self.live_cids or f2 in self.live_cids):
+            struct.pack_into('<HH', b, 4, 0x0BAD, 0x0BAE)
+        elif code in (0x04, 0x05) and f1 in self.live_cids:
+            struct.pack_into('<H', b, 4, 0x0BAD)
+        elif code == 0x02 and f1 == 0x0001:
+            struct.pack_into('<H', b, 4, 0x1001)
+        elif code in (0x19,):
+            pass
+        return bytes(b)
+
+    # ---- HCI level
+    def hci_packet(self, dev):
+        rng = self.rng
+        r = rng.below(100)
+        seeds = self.seeds['hci'][dev]
+        if r < 8:
+            return rng.bytes(rng.choice([0, 1, 2, 3, 4, 5, 9, 40])), 'random'
+        if r < 30 and seeds:
+            s = bytes.fromhex(rng.choice(seeds))
+            offs = ((2, 1),) if s[:1] == b'\x04' else ((3, 2), (5, 2))
+            out, k = mutate(rng, s, offs)
+            return self.defuse_hci(out), 'recorded-' + k
+        if r < 70:
+            # an event of a registered class
+            if rng.chance(2, 3):
+                code = rng.choice(self.reg['evt'])
+                params = self.event_params()
+            else:
+                code = 0x3E
+                params = bytes([rng.choice(self.reg['le'] + [0, 0xFF])]) + self.event_params()
+            n = len(params)
+            if rng.chance(1, 4):
+                n = rng.choice([0, 1, n + 1, max(0, n - 1), 255])
+            b = bytes([0x04, code, n & 0xFF]) + params
+            return self.defuse_hci(b), f'class-event'
+        if r < 80:
+            # ISO data packet
+            h = rng.choice(self.live_handles + [0, 0x0EFF]) | rng.below(4) << 12 | rng.below(2) << 14
+            data = self.body(rng.choice([0, 1, 3, 4, 7, 8, 12, 30]))
+            n = len(data) if rng.chance(2, 3) else rng.choice([0, len(data) + 1, 0x3FFF, 0xFFFF])
+            return bytes([0x05]) + struct.pack('<HH', h, n) + data, 'class-iso'
+        if r < 86:
+            h = rng.choice(self.live_handles + [0, 0x0EFF]) | rng.below(4) << 12
+            data = self.body(rng.choice([0, 1, 16, 60]))
+            n = len(data) if rng.chance(2, 3) else rng.choice([0, len(data) + 1, 255])
+            return bytes([0x03]) + struct.pack('<HB', h, n & 0xFF) + data, 'class-sco'
+        if r < 90:
+            return bytes([0x01]) + struct.pack('<HB', rng.below(65536), rng.below(256)) + self.body(4), 'class-command'
+        # ACL with inconsistent lengths / unknown handle / odd flags carrying random L2CAP
+        h = rng.choice(self.live_handles + [0, 0x0EFF])
+        data = self.body(rng.choice([0, 1, 3, 4, 5, 8, 12, 30]))
+        if len(data) >= 4 and rng.chance(1, 2):
+            data = struct.pack('<HH', rng.choice([len(data) - 4, 0, 1, 0xFFFF, len(data)]), rng.choice([1, 4, 5, 6, 7, 0x40, 0x41, 0x3A])) + data[4:]
+            data = data[:4] + self.defuse_signalling(data[4:])
+        n = len(data) if rng.chance(2, 3) else rng.choice([0, len(data) + 1, 0xFFFF])
+        return bytes([0x02]) + struct.pack('<HH', h | rng.below(4) << 12 | rng.below(4) << 14, n) + data, 'class-acl'
+
+    def event_params(self):
+        rng = self.rng
+        n = rng.choice([0, 1, 2, 3, 4, 6, 8, 11, 18, 30, 64])
+        style = rng.below(3)
+        if style == 0:
+            return self.body(n)
+        h = rng.choice(self.live_handles)
+        if style == 1:      # status, handle, ...
+            return (bytes([rng.choice([0, 0, 0, 1, 0x3E])]) + struct.pack('<H', h) + self.body(n))[:max(n, 3)]
+        return (struct.pack('<H', h) + self.body(n))[:max(n, 2)]
+
+    def defuse_hci(self, b):
+        """A Disconnection Complete event (status 0) for a live handle is a valid disconnect:
+        the property exempts it; re-aim it at a handle that is not live."""
+        if len(b) >= 6 and b[0] == 0x04 and b[1] == 0x05 and b[3] == 0:
+            h = struct.unpack_from('<H', b, 4)[0] & 0xFFF
+            if h in self.live_handles:
+                b = bytearray(b)
+                struct.pack_into('<H', b, 4, 0x0EEE)
+                return bytes(b)
+        return b
+
+    # ---- whole cases
+    def case(self):
+        rng = self.rng
+        r = rng.below(100)
+        nops = rng.choice([1, 1, 1, 2, 3])
+        if r < 14:
+            dev = rng.below(2)
+            ops, tags = [], []
+            for _ in range(nops):
+                b, tag = self.hci_packet(dev)
+                ops.append({'k': 'hci', 'dev': dev, 'data': b.hex()})
+                tags.append(tag)
+            return {'target': 'hci', 'ops': ops, 'refs': ['conn', 'att', 'echo.le', 'echo.br'], 'src': tags[0]}
+        if r < 20:
+            dev = rng.below(2)
+            stream = b''
+            tag = ''
+            for _ in range(nops):
+                b, tag = self.hci_packet(dev)
+                stream += b
+            cuts = sorted(rng.below(len(stream) + 1) for _ in range(rng.choice([0, 1, 3])))
+            return {'target': 'feed', 'ops': [{'k': 'feed', 'dev': dev, 'data': stream.hex(), 'cuts': cuts}],
+                    'refs': ['conn', 'att', 'echo.le', 'echo.br'], 'src': tag}
+        if r < 46:
+            # fixed channels (and unallocated CIDs) on both connections, both devices
+            conn = rng.choice(['le', 'le', 'br'])
+            dev = rng.below(2)
+            if conn == 'le':
+                cid = rng.choice([4, 4, 4, 5, 5, 6, 6, 1, 2, 3, 7, 0x3A, 0x40, 0])
+            else:
+                cid = rng.choice([1, 1, 1, 7, 7, 4, 5, 6, 2, 3, 0x3F, 0x7F, 0])
+            family = {4: 'att', 5: 'sig', 1: 'sig', 6: 'smp', 7: 'smp'}.get(cid, 'other')
+            ops, tags = [], []
+            for _ in range(nops):
+                b, tag = self.payload_for(f'cid{cid}.{conn}.{dev}', family)
+                ops.append(self.l2cap_op(conn, dev, b, cid=cid))
+                tags.append(tag)
+            refs = ['conn', 'att' if conn == 'le' else 'echo.br', 'echo.' + conn]
+            if family == 'sig':
+                refs.append('sdp.fresh')
+            if family == 'smp':
+                refs.append('pair')
+            return {'target': f'cid{cid}', 'ops': ops, 'refs': refs, 'src': tags[0]}
+        if r < 80:
+            proto = rng.choice(['sdp', 'sdp', 'sdp', 'rfcomm', 'rfcomm', 'avdtp', 'avdtp', 'avctp'])
+            dev = rng.choice([1, 1, 0])
+            ops, tags = [], []
+            for _ in range(nops):
+                b, tag = self.payload_for(f'{proto}.{dev}', proto)
+                ops.append(self.l2cap_op('br', dev, b, proto=proto))
+                tags.append(tag)
+            ref = {'sdp': 'sdp', 'rfcomm': 'at', 'avdtp': 'avdtp', 'avctp': 'avctp'}[proto]
+            case = {'target': proto, 'ops': ops, 'refs': ['conn', ref, 'echo.br'], 'src': tags[0]}
+            if proto == 'rfcomm':
+                case['hfp'] = False        # raw DLC sinks: the reference is the byte stream itself
+            return case
+        if r < 92:
+            dev = rng.choice([1, 1, 0])
+            ops, tags = [], []
+            for _ in range(nops):
+                b, tag = gen_at_hostile(rng, to_ag=(dev == 1))
+                ops.append({'k': 'at', 'dev': dev, 'data': b.hex()})
+                tags.append(tag)
+            return {'target': 'at', 'ops': ops, 'refs': ['conn', 'at'], 'src': tags[0]}
+        # ACL fragment-flag permutations around a well-formed or hostile frame
+        conn = rng.choice(['le', 'br'])
+        dev = rng.below(2)
+        cid = 5 if conn == 'le' else 1
+        if rng.chance(1, 2):
+            payload = bytes([0x08, rng.below(256), 3, 0, 1, 2, 3])     # echo request
+        else:
+            payload, _ = self.payload_for(f'cid{cid}.{conn}.{dev}', 'sig')
+        frame_len = 4 + len(payload)
+        k = rng.choice([1, 2, 2, 3, 4])
+        cuts = sorted(rng.below(frame_len + 1) for _ in range(k - 1))
+        sizes = [b - a for a, b in zip([0] + cuts, cuts + [frame_len])]
+        flags = [rng.choice([0, 1, 1, 2, 2, 3]) for _ in sizes]
+        if rng.chance(1, 3):
+            flags = [2] + [1] * (len(sizes) - 1)
+            if rng.chance(1, 2):
+                flags = rng.shuffle(flags)
+        op = self.l2cap_op(conn, dev, payload, cid=cid)
+        op['frags'] = [[f, n] for f, n in zip(flags, sizes)]
+        op['bc'] = rng.choice([0, 0, 1, 2, 3])
+        return {'target': 'frag', 'ops': [op], 'refs': ['conn', 'att', 'echo.' + conn], 'src': 'fragflags'}
+
+    def l2cap_op(self, conn, dev, payload, cid=None, proto=None):
+        rng = self.rng
+        op = {'k': 'l2cap', 'conn': conn, 'dev': dev, 'data': payload.hex()}
+        if proto is not None:
+            op['proto'] = proto
+        else:
+            op['cid'] = cid
+        if rng.chance(1, 12):
+            # L2CAP header length inconsistent with the payload
+            op['l2len'] = rng.choice([0, 1, max(0, len(payload) - 1), len(payload) + 1, 0xFFFF])
+            op['frags'] = [[2, 4 + len(payload)]]
+        return op
+
+
+# ----------------------------------------------------------------------------- running cases
+FULL_BATTERY = ['conn', 'att', 'echo.le', 'echo.br', 'sdp', 'at', 'avdtp', 'avctp']
+
+
+async def run_case(w, case):
+    """Inject the ops of one case under the watchdog, then run its reference requests.
+    Returns dict(verdict=None|str, exc=..., steps=..., depth=..., detail=...)."""
+    ops = case['ops']
+    total = sum(op_len(op) for op in ops)
+    budget = STEP_BASE + STEP_PER_BYTE * total
+    excs = []
+    verdict = None
+    n_loop_errors = len(w.loop_errors)
+    with Watch(budget) as wt:
+        for op in ops:
+            try:
+                w.deliver(op)
+            except Abort as a:
+                verdict = a.kind
+            except Exception as e:            # an ordinary exception is allowed by the property
+                excs.append(type(e).__name__)
+            except BaseException as e:        # anything else (SystemExit, CancelledError, ...) is not
+                verdict = 'non-ordinary exception ' + type(e).__name__
+            if verdict:
+                break
+            if not await idle():
+                verdict = 'hang'
+                break
+    if wt.tripped and not verdict:
+        verdict = wt.tripped
+    if wt.recursion_error and not verdict:
+        verdict = 'recursion'
+    for name in w.loop_errors[n_loop_errors:]:
+        excs.append(name)
+    res = {'verdict': verdict, 'exc': excs[0] if excs else 'none', 'excs': excs, 'steps': wt.steps,
+           'depth': wt.max_depth, 'bytes': total, 'detail': ''}
+    if verdict:
+        res['detail'] = f'{verdict} after {wt.steps} steps (budget {budget}), max depth {wt.max_depth}'
+        return res
+    bad = await w.reference(case['refs'])
+    if bad:
+        name, text = bad
+        res['verdict'] = 'connection lost' if name == 'conn' else f'reference request failed ({name})'
+        res['detail'] = text
+    return res
+
+
+def signature(case, res):
+    return f"{op_entry(case['ops'][0])}:{res['exc']}:{res['verdict']}"
+
+
+# ============================================================================= regen
+def regen(ctx):
+    from translate import c17_tables
+    ctx.write_gen('C17Tables', c17_tables.render())
+
+
+# ============================================================================= correspondence
+# model error constructor -> exception class the real parser raises
+ERR_CLASS = {
+    'EIndex': 'IndexError', 'EStruct': 'error', 'EEmpty': 'InvalidPacketError',
+    'SOffsetBeyond': 'InvalidStateError', 'SIndex': 'IndexError', 'SStruct': 'error',
+    'SBadIntLen': 'InvalidPacketError', 'SUuidLen': 'InvalidArgumentError',
+    'SNesting': 'InvalidPacketError', 'SOverrun': 'InvalidPacketError',
+}
+BASE_UUID_LE = bytes.fromhex('00001000800000805F9B34FB')[::-1]
+
+
+def _canon_model_at(v):
+    """atval -> bytes / nested list"""
+    if isinstance(v, tuple) and v[0] == 'AtBytes':
+        return bytes(v[1])
+    if isinstance(v, tuple) and v[0] == 'AtList':
+        return [_canon_model_at(x) for x in v[1]]
+    raise ValueError(v)
+
+
+def _canon_impl_at(v):
+    if isinstance(v, (bytes, bytearray)):
+        return bytes(v)
+    return [_canon_impl_at(x) for x in v]
+
+
+def corr_at(ctx, rng):
+    from bumble import at
+    alphabet = b'(),"  aA1+:;=?\r\n\\' + bytes([0, 0xFF])
+    cases = [b'', b'(', b')', b'"', b',', b'(1,2),"a"', b'1,(2,(3,4)),5', b'a(', b'a"', b'"(",")"', b'","', b'""', b'(1', b'1)',
+             b'(' * 40 + b')' * 40, b'"abc', b' 1 , 2 ', b'"a b",c d']
+    for _ in range(ctx.n(500, 6000)):
+        n = rng.choice([0, 1, 2, 3, 4, 5, 6, 8, 12, 20, 40])
+        if rng.chance(1, 5):
+            cases.append(rng.bytes(n))
+        else:
+            cases.append(bytes(rng.choice(alphabet) for _ in range(n)))
+    exprs = [f'(tokenize {coq_bytes(b)}, parse_parameters {coq_bytes(b)})' for b in cases]
+    model = ctx.coq_eval(['Model.HostileAt'], exprs)
+    for b, (mt, mp) in zip(cases, model):
+        try:
+            it = ('ok', [bytes(t) for t in at.tokenize_parameters(b)])
+        except at.AtParsingError:
+            it = ('error', None)
+        try:
+            ip = ('ok', _canon_impl_at(at.parse_parameters(b)))
+        except at.AtParsingError:
+            ip = ('error', None)
+        mt_c = ('ok', [bytes(t) for t in mt[1]]) if mt[0] == 'inr' else ('error', None)
+        mp_c = ('ok', [_canon_model_at(x) for x in mp[1]]) if mp[0] == 'inr' else ('error', None)
+        nontrivial = any(c in b for c in b'(),"')
+        ctx.case(('at', b), nontrivial, {'kind': 'at', 'bytes': b.hex()} if len(b) == 12 else None)
+        ctx.count('corr.at')
+        ctx.count('corr.at.' + ip[0])
+        if (mt_c, mp_c) != (it, ip):
+            ctx.disagree('at.tokenize_parameters/parse_parameters', {'bytes': b.hex()}, [repr(mt_c), repr(mp_c)], [repr(it), repr(ip)])
+
+
+def corr_options(ctx, rng):
+    from bumble import l2cap
+    cases = [b'', b'\x01', b'\x01\x00', b'\x01\x02\x00\x04', b'\x01\xff', b'\x01\x00\x02\x00\x03\x00', b'\x05\x01\x00\x07']
+    for _ in range(ctx.n(300, 4000)):
+        n = rng.choice([0, 1, 2, 3, 4, 5, 7, 9, 16, 33])
+        b = bytearray(rng.bytes(n))
+        for i in range(1, n, 2):
+            if rng.chance(2, 3):
+                b[i] = rng.choice([0, 0, 1, 2, 4, 255])
+        cases.append(bytes(b))
+    exprs = [f'decode_options (decode_options_fuel {coq_bytes(b)}) {coq_bytes(b)}' for b in cases]
+    model = ctx.coq_eval(['Model.HostileFields'], exprs)
+    for b, m in zip(cases, model):
+        impl = [[int(t), bytes(v)] for t, v in l2cap.L2CAP_Control_Frame.decode_configuration_options(b)]
+        mm = None if m is None else [[t, bytes(v)] for t, v in m[1]]
+        ctx.case(('opts', b), len(b) >= 2, None)
+        ctx.count('corr.options')
+        if mm != impl:
+            ctx.disagree('decode_configuration_options', {'bytes': b.hex()}, repr(mm), repr(impl))
+
+
+def _field_values(instance):
+    vals = []
+    for f in instance.fields:
+        name = f[0]
+        v = getattr(instance, name)
+        vals.append(bytes(v) if isinstance(v, (bytes, bytearray)) else int(v))
+    return vals
+
+
+def _canon_fvals(vals):
+    return [bytes(v[1]) if v[0] == 'VBytes' else v[1] for v in vals]
+
+
+def corr_pdus(ctx, rng):
+    """ATT_PDU.from_bytes, SMP_Command.from_bytes, and the signalling handler."""
+    from bumble import att, l2cap, smp
+    reg = _registry(rng)
+    for layer, table, real in (('att', 'att_classes', att.ATT_PDU.from_bytes),
+                               ('smp', 'smp_classes', smp.SMP_Command.from_bytes)):
+        cases = [b'']
+        for code in reg[layer] + [0, 0x7F, 0xFF]:
+            for n in (0, 1, 2, 3, 4, 5, 6, 7, 15, 16, 17, 40, 64, 65):
+                cases.append(bytes([code]) + rng.bytes(n))
+        for _ in range(ctx.n(200, 3000)):
+            cases.append(bytes([rng.choice(reg[layer] + [rng.below(256)])]) + rng.bytes(rng.choice([0, 1, 2, 3, 4, 6, 16, 20])))
+        exprs = [f'{layer}_from_bytes {table} {coq_bytes(b)}' for b in cases]
+        model = ctx.coq_eval(['Model.HostileFields', 'Gen.C17Tables'], exprs)
+        for b, m in zip(cases, model):
+            try:
+                inst = real(b)
+                if type(inst).__name__ in ('ATT_PDU', 'SMP_Command'):
+                    code = int(inst.op_code) if layer == 'att' else int(inst.code)
+                    impl = ['generic', code, bytes(inst.payload)]
+                else:
+                    code = int(inst.op_code) if layer == 'att' else int(inst.code)
+                    impl = ['known', code, _field_values(inst)]
+            except Exception as e:
+                impl = ['error', type(e).__name__]
+            ctx.count(f'corr.{layer}')
+            if m[0] == 'PErr' and m[1] == 'EOpaque':
+                ctx.count(f'corr.{layer}.opaque-class')
+                ctx.case((layer, b), False, None)
+                continue
+            if m[0] == 'PErr':
+                mm = ['error', ERR_CLASS[m[1]]]
+            elif m[0] == 'PGeneric':
+                mm = ['generic', m[1], bytes(m[2])]
+            else:
+                mm = ['known', m[1], _canon_fvals(m[2])]
+            ctx.case((layer, b), mm[0] != 'generic', {'kind': layer, 'bytes': b.hex(), 'model': repr(mm)} if len(b) == 3 else None)
+            ctx.count(f'corr.{layer}.{mm[0]}')
+            if mm != impl:
+                ctx.disagree(f'{layer} from_bytes', {'bytes': b.hex()}, repr(mm), repr(impl))
+    # ---- signalling: real ChannelManager.on_pdu / on_control_frame / from_bytes, handler
+    # methods replaced by recording stubs (one of them raising)
+    from bumble.host import Host
+
+    class Conn:
+        handle = 0x0042
+        peer_address = 'peer'
+
+    RAISE = 8          # the echo-request stub raises
+    cases = [b'', b'\x08', b'\x08\x01\x00', b'\x08\x05\x00\x00', b'\xc8\x07\x00\x00', b'\x0b\x01\x04\x00\x01\x00\x00\x00',
+             b'\x0c\x09\x00\x00', b'\x1a\x03\x02\x00\x00\x00']
+    for code in sorted(set(reg['sig'] + list(range(0, 0x20)) + [0x7F, 0xFF])):
+        for n in (0, 1, 2, 4, 8, 10, 12):
+            body = rng.bytes(n)
+            cases.append(bytes([code, rng.below(256)]) + struct.pack('<H', len(body) if rng.chance(2, 3) else rng.below(65536)) + body)
+    for _ in range(ctx.n(200, 3000)):
+        cases.append(rng.bytes(rng.choice([0, 1, 2, 3, 4, 5, 8, 12])))
+    handler = f'(fun (code ident : Z) (vals : list fval) (s : Z) => (s + 1, @nil (list Z), code =? {RAISE}))'
+    exprs = [f'on_signalling_pdu Z {handler} sig_classes sig_handled 0 {coq_bytes(b)}' for b in cases]
+    model = ctx.coq_eval(['Model.HostileFields', 'Gen.C17Tables'], exprs)
+
+    class StubRaised(Exception):
+        pass
+    for b, m in zip(cases, model):
+        host = Host()
+        sent = []
+        host.send_l2cap_pdu = lambda handle, cid, pdu: sent.append(bytes(pdu))
+        mgr = l2cap.ChannelManager()
+        mgr.host = host
+        calls = []
+        for name in dir(l2cap.ChannelManager):
+            if name.startswith('on_l2cap_'):
+                def stub(connection, cid, frame, name=name):
+                    calls.append(name)
+                    if int(frame.code) == RAISE:
+                        raise StubRaised()
+                setattr(mgr, name, stub)
+        tables_before = (dict(mgr.channels), dict(mgr.le_coc_channels), dict(mgr.identifiers))
+        try:
+            mgr.on_pdu(Conn, l2cap.L2CAP_SIGNALING_CID, b)
+            exc = None
+        except StubRaised:
+            exc = 'stub'
+        except Exception as e:
+            exc = type(e).__name__
+        unchanged = tables_before == (dict(mgr.channels), dict(mgr.le_coc_channels), dict(mgr.identifiers))
+        ms, msent, moutcome = m
+        ctx.count('corr.sig')
+        if isinstance(moutcome, tuple) and moutcome[0] == 'SigParseError' and moutcome[1] == 'EOpaque':
+            ctx.count('corr.sig.opaque-class')
+            ctx.case(('sig', b), False, None)
+            continue
+        if isinstance(moutcome, tuple):      # SigParseError e
+            mm = ['parse-error', ERR_CLASS[moutcome[1]], 0, []]
+        elif moutcome == 'SigRejected':
+            mm = ['rejected', None, ms, [bytes(x) for x in msent]]
+        elif moutcome == 'SigHandled':
+            mm = ['handled', None, ms, [bytes(x) for x in msent]]
+        else:
+            mm = ['handler-raised', None, ms, [bytes(x) for x in msent]]
+        if exc == 'stub':
+            impl = ['handler-raised', None, len(calls), sent]
+        elif exc is not None:
+            impl = ['parse-error', exc, len(calls), sent]
+        elif calls:
+            impl = ['handled', None, len(calls), sent]
+        else:
+            impl = ['rejected', None, 0, sent]
+        ctx.case(('sig', b), mm[0] != 'parse-error', {'kind': 'sig', 'bytes': b.hex(), 'model': mm[0]} if len(b) == 6 else None)
+        ctx.count('corr.sig.' + mm[0])
+        if mm != impl or (mm[0] in ('parse-error', 'rejected') and not unchanged):
+            ctx.disagree('signalling on_pdu', {'bytes': b.hex()}, repr(mm), repr(impl + [unchanged]))
+
+
+def _uuid128(le_bytes):
+    if len(le_bytes) == 2:
+        return BASE_UUID_LE + le_bytes + bytes([0, 0])
+    if len(le_bytes) == 4:
+        return BASE_UUID_LE + le_bytes
+    return le_bytes
+
+
+def _canon_model_elem(e):
+    if e == 'ENil':
+        return ['nil']
+    k = e[0]
+    if k in ('EUInt', 'ESInt'):
+        return ['int', k == 'ESInt', e[1], e[2]]
+    if k == 'EUuid':
+        return ['uuid', _uuid128(bytes(e[1])).hex()]
+    if k == 'EText':
+        return ['text', bytes(e[1]).hex()]
+    if k == 'EBool':
+        return ['bool', e[1]]
+    if k in ('ESeq', 'EAlt'):
+        return ['seq' if k == 'ESeq' else 'alt', [_canon_model_elem(x) for x in e[1]]]
+    if k == 'EUrl':
+        return ['url', bytes(e[1]).hex()]
+    if k == 'EOther':
+        return ['other', e[1], bytes(e[2]).hex()]
+    raise ValueError(e)
+
+
+def _canon_impl_elem(e):
+    from bumble.sdp import DataElement
+    t = int(e.type)
+    if t == 0:
+        return ['nil']
+    if t in (1, 2):
+        return ['int', t == 2, int(e.value), e.value_size]
+    if t == 3:
+        return ['uuid', e.value.to_bytes(force_128=True).hex()]
+    if t == 4:
+        return ['text', bytes(e.value).hex()]
+    if t == 5:
+        return ['bool', bool(e.value)]
+    if t in (6, 7):
+        return ['seq' if t == 6 else 'alt', [_canon_impl_elem(x) for x in e.value]]
+    if t == 8:
+        return ['url', e.value.encode('utf8').hex()]
+    return ['other', t, bytes(e.value).hex()]
+
+
+def gen_sdp_element(rng):
+    """byte strings for DataElement.from_bytes: valid trees, every type x size form, hostile
+    nesting and overrun shapes, mutations of those."""
+    r = rng.below(100)
+    if r < 15:
+        depth = rng.choice([0, 1, 2, 3, 30, 31, 32, 33, 34, 40, 64, 200])
+        return nested_sdp(depth, rng.choice([b'\x19\x11\x01', b'\x08\x01', b'\x00', b'', b'\x28\x01']), rng.chance(1, 2))
+    if r < 25:
+        return overrun_sdp(rng.choice([1, 2, 3, 4, 5, 6]), bytes([0x00]) * rng.choice([1, 3, 10]))
+    if r < 60:
+        t = rng.below(32) if rng.chance(1, 3) else rng.below(10)
+        si = rng.below(8)
+        hdr = bytes([t << 3 | si])
+        size = rng.choice([0, 1, 2, 3, 4, 8, 16, 17, 200, 0xFFFF, 0xFFFFFFFF])
+        if si == 5:
+            hdr += bytes([size & 0xFF])
+        elif si == 6:
+            hdr += (size & 0xFFFF).to_bytes(2, 'big')
+        elif si == 7:
+            hdr += (size & 0xFFFFFFFF).to_bytes(4, 'big')
+        body = rng.bytes(rng.choice([0, 0, 1, 2, 3, 4, 8, 16, 17]))
+        if t == 8 and rng.chance(2, 3):
+            body = bytes(b & 0x7F for b in body)
+        out = hdr + body
+        if rng.chance(1, 6):
+            out = out[:rng.below(len(out) + 1)]
+        return out
+    # a random small tree of well-formed elements, then maybe mutated
+    def tree(d):
+        k = rng.below(9 if d < 3 else 6)
+        if k == 0:
+            return b'\x00'
+        if k == 1:
+            n = rng.choice([1, 2, 4, 8])
+            return bytes([1 << 3 | {1: 0, 2: 1, 4: 2, 8: 3}[n]]) + rng.bytes(n)
+        if k == 2:
+            n = rng.choice([1, 2, 4, 8])
+            return bytes([2 << 3 | {1: 0, 2: 1, 4: 2, 8: 3}[n]]) + rng.bytes(n)
+        if k == 3:
+            n = rng.choice([2, 4, 16])
+            return bytes([3 << 3 | {2: 1, 4: 2, 16: 4}[n]]) + rng.bytes(n)
+        if k == 4:
+            s = rng.bytes(rng.below(6))
+            return bytes([4 << 3 | 5, len(s)]) + s
+        if k == 5:
+            return bytes([5 << 3, rng.below(3)])
+        kids = b''.join(tree(d + 1) for _ in range(rng.below(4)))
+        return bytes([(6 if k < 8 else 7) << 3 | 5, len(kids)]) + kids
+    b = tree(0)
+    if rng.chance(1, 2):
+        b, _ = mutate(rng, b, ((1, 1),))
+    return b
+
+
+def corr_sdp(ctx, rng):
+    from bumble import sdp
+    cases = [b'', b'\x00', b'\x35\x00', b'\x35\x03\x19\x11\x01', b'\x19\x11', b'\x08', b'\x09\x00\x01', b'\x28\x01',
+             b'\x25\x05ab', b'\x45\x02\x68\x69', b'\x45\x02\xff\xfe', b'\x36\xff\xff\x00', b'\x37\xff\xff\xff\xff\x00',
+             nested_sdp(32), nested_sdp(33), overrun_sdp(2, b'\x00'), b'\x0d\x03\x01\x02\x03', b'\x10\x80', b'\x11\x80\x00']
+    for _ in range(ctx.n(900, 9000)):
+        cases.append(gen_sdp_element(rng))
+    exprs = [f'element_from_bytes true sdp_max_nesting {coq_bytes(b)}' for b in cases]
+    model = ctx.coq_eval(['Model.HostileSdp', 'Gen.C17Tables'], exprs)
+    calls = [0]
+    orig = sdp.DataElementParser.parse_next
+
+    def counted(self):
+        calls[0] += 1
+        return orig(self)
+    sdp.DataElementParser.parse_next = counted
+    try:
+        for b, m in zip(cases, model):
+            calls[0] = 0
+            try:
+                impl = ['ok', _canon_impl_elem(sdp.DataElement.from_bytes(b))]
+            except Exception as e:
+                impl = ['error', type(e).__name__]
+            impl.append(calls[0])
+            ctx.count('corr.sdp')
+            if m == 'SOutOfFuel':
+                ctx.disagree('sdp model out of fuel', {'bytes': b.hex()}, 'SOutOfFuel', repr(impl))
+                continue
+            if m[0] == 'SErr' and m[1] == 'SUrlNonAscii':
+                ctx.count('corr.sdp.url-nonascii-skipped')
+                ctx.case(('sdp', b), False, None)
+                continue
+            if m[0] == 'SErr':
+                mm = ['error', ERR_CLASS[m[1]], m[2]]
+                ctx.count('corr.sdp.err.' + m[1])
+            else:
+                mm = ['ok', _canon_model_elem(m[1]), m[3]]
+                ctx.count('corr.sdp.ok')
+            ctx.case(('sdp', b), len(b) >= 2, {'kind': 'sdp', 'bytes': b.hex(), 'model': repr(mm)[:120]} if len(b) == 7 else None)
+            if mm != impl:
+                ctx.disagree('sdp DataElement.from_bytes', {'bytes': b.hex()}, repr(mm)[:400], repr(impl)[:400])
+    finally:
+        sdp.DataElementParser.parse_next = orig
+
+
+def corr_host(ctx, rng):
+    from bumble import hci
+    from bumble.core import PhysicalTransport
+    from bumble.host import Connection, DataPacketQueue, Host
+    handles = [1, 2, 0x0EFE]
+    cases = []
+    for _ in range(ctx.n(500, 6000)):
+        ready = rng.chance(5, 6)
+        conns = sorted(set(rng.choice(handles) for _ in range(rng.below(3))))
+        cis = sorted(set([0x060] if rng.chance(1, 8) else []))
+        t = rng.choice([2, 2, 2, 2, 3, 5, 5, 0, 6, 9, 0xFF])
+        r = rng.below(10)
+        if r == 0:
+            pkt = bytes([t])[:rng.below(2)] + rng.bytes(rng.below(4))
+        elif t == 2:
+            h = rng.choice(handles + [0x060, 0x0ABC]) | rng.below(4) << 12 | rng.below(4) << 14
+            data = rng.bytes(rng.choice([0, 1, 4, 7, 20]))
+            n = len(data) if rng.chance(3, 4) else rng.choice([0, len(data) + 1, 0xFFFF])
+            pkt = bytes([2]) + struct.pack('<HH', h, n) + data
+            if rng.chance(1, 8):
+                pkt = pkt[:rng.below(6)]
+        elif t == 3:
+            data = rng.bytes(rng.choice([0, 1, 4, 30]))
+            n = len(data) if rng.chance(3, 4) else (len(data) + 1) & 0xFF
+            pkt = bytes([3]) + struct.pack('<HB', rng.below(65536), n) + data
+            if rng.chance(1, 8):
+                pkt = pkt[:rng.below(5)]
+        elif t == 5:
+            data = rng.bytes(rng.choice([0, 1, 3, 4, 5, 7, 8, 9, 12]))
+            pkt = bytes([5]) + struct.pack('<HH', rng.below(65536), rng.below(65536) if rng.chance(1, 2) else len(data)) + data
+            if rng.chance(1, 8):
+                pkt = pkt[:rng.below(6)]
+        else:
+            pkt = bytes([t]) + rng.bytes(rng.below(8))
+        cases.append((ready, conns, cis, pkt))
+    exprs = [f'snd (host_on_packet (mkHost {"true" if rd else "false"} {coq_list(cs, coq_z)} {coq_list(ci, coq_z)} []) {coq_bytes(p)})'
+             for rd, cs, ci, p in cases]
+    model = ctx.coq_eval(['Model.HostileHost'], exprs)
+    for (ready, conns, cis, pkt), m in zip(cases, model):
+        host = Host()
+        host.ready = ready
+        host.le_acl_packet_queue = DataPacketQueue(27, 4, lambda p: None)
+        events = []
+        for h in conns:
+            c = Connection(host, h, hci.Address('00:11:22:33:44:55'), PhysicalTransport.LE)
+            c.on_hci_acl_data_packet = (lambda h: lambda p: events.append(['asm', h, p.pb_flag, bytes(p.data)]))(h)
+            host.connections[h] = c
+        for h in cis:
+            host.cis_links[h] = object()
+        host.on('sco_packet', lambda h, p: events.append(['sco', h]))
+        host.on('iso_packet', lambda h, p: events.append(['iso', h]))
+        dispatched = []
+        orig = host.on_hci_packet
+        host.on_hci_packet = lambda p: (dispatched.append(1), orig(p))
+        try:
+            host.on_packet(pkt)
+            exc = None
+        except Exception as e:
+            exc = type(e).__name__
+        table_ok = sorted(host.connections) == conns and sorted(host.cis_links) == cis and host.ready == ready
+        out = m[0]
+        ctx.count('corr.host')
+        if out == 'OOpaque':
+            ctx.case(('host', pkt), False, None)
+            continue
+        name = out if isinstance(out, str) else out[0]
+        ctx.count('corr.host.' + name)
+        if name in ('OParseError', 'ONotReady'):
+            mm = [False, []]
+        elif name == 'OToAssembler':
+            mm = [True, [['asm', out[1], out[2], bytes(out[3])]]]
+        elif name == 'OSco':
+            mm = [True, [['sco', out[1]]]]
+        elif name == 'OIso':
+            mm = [True, [['iso', out[1]]]]
+        elif name == 'OIsoWorkaround':
+            mm = [True, [e for e in events if e[0] == 'iso']]      # only: dispatched, no assembler
+        else:
+            mm = [True, []]
+        impl = [bool(dispatched), events]
+        ctx.case(('host', ready, tuple(conns), pkt), name not in ('OUnknownType',), {'kind': 'host', 'packet': pkt.hex(), 'model': name} if len(pkt) == 9 else None)
+        if mm != impl or exc is not None or not table_ok:
+            ctx.disagree('Host.on_packet', {'ready': ready, 'conns': conns, 'cis': cis, 'packet': pkt.hex()}, repr(mm), repr(impl + [exc, table_ok]))
+
+
+def correspondence(ctx):
+    rng = ctx.rng.fork('correspondence')
+    corr_at(ctx, rng)
+    corr_options(ctx, rng)
+    corr_pdus(ctx, rng)
+    corr_sdp(ctx, rng)
+    corr_host(ctx, rng)
+
+
+# ============================================================================= campaign
+WORLD_LIFETIME = 40        # cases per world (bounds the history a replay needs)
+SIGNALLING_TARGETS = ('cid1', 'cid5', 'frag')
+CORPUS_DIR = os.path.join(os.path.dirname(os.path.dirname(os.path.dirname(os.path.abspath(__file__)))), 'corpus', 'C17')
+
+
+def _trim_uuid_registry(n0):
+    """bumble.core.UUID keeps every UUID ever parsed in a process-global list that is scanned
+    on each new UUID; the campaign plays thousands of independent peers in one process, so
+    the list is cut back to its size at world creation between cases (see docs/C17.md)."""
+    from bumble import core
+    del core.UUID.UUIDS[n0:]
+
+
+def directed_cases():
+    """Deterministic cases that always run: the witnesses of the defects found so far and
+    the shapes named in the property (deep nesting, overrun, storms, framing)."""
+    out = []
+
+    def sdp_case(name, pdu, dev=1):
+        out.append({'name': name, 'target': 'sdp', 'src': 'directed', 'refs': ['conn', 'sdp', 'echo.br'],
+                    'ops': [{'k': 'l2cap', 'conn': 'br', 'dev': dev, 'proto': 'sdp', 'data': pdu.hex()}]})
+    for depth in (32, 33, 40, 64, 200, 600):
+        e = nested_sdp(depth, b'\x19\x11\x01')
+        sdp_case(f'sdp-nest{depth}-search', sdp_pdu(2, 1, e + b'\x00\x10\x00'))
+        sdp_case(f'sdp-nest{depth}-attr-response', sdp_pdu(7, 0, struct.pack('>H', len(e) & 0xFFFF) + e + b'\x00'), dev=0)
+    for levels, tail in ((8, 50), (12, 50), (15, 600)):
+        e = overrun_sdp(levels, bytes(tail))
+        sdp_case(f'sdp-overrun{levels}x{tail}-search', sdp_pdu(2, 2, e + b'\x00\x10\x00'))
+        sdp_case(f'sdp-overrun{levels}x{tail}-searchattr', sdp_pdu(6, 3, e + b'\xff\xff\x35\x05\x0a\x00\x00\xff\xff\x00'))
+    # SMP: out-of-sequence commands with no pairing in progress (reply storm, stale sessions)
+    for name, dev, cid, conn, frames in (
+            ('smp-random-unsolicited', 0, 6, 'le', ['04' + '22' * 16]),
+            ('smp-random-unsolicited-peripheral', 1, 6, 'le', ['04' + '22' * 16]),
+            ('smp-random-short-br', 1, 7, 'br', ['04ff']),
+            ('smp-confirm-then-random', 0, 6, 'le', ['03' + '11' * 16, '04' + '22' * 16]),
+            ('smp-failed-unsolicited', 1, 6, 'le', ['0508']),
+            ('smp-request-then-failed', 1, 6, 'le', ['01030303030303', '0508']),
+            ('smp-request-hostile', 1, 6, 'le', ['01030303030303']),
+            ('smp-encryption-info-unsolicited', 1, 6, 'le', ['06' + '00' * 16]),
+            ('smp-public-key-unsolicited', 0, 6, 'le', ['0c' + '11' * 64])):
+        out.append({'name': name, 'target': f'cid{cid}', 'src': 'directed',
+                    'refs': ['conn', 'att' if conn == 'le' else 'echo.br', 'echo.' + conn, 'pair'],
+                    'ops': [{'k': 'l2cap', 'conn': conn, 'dev': dev, 'cid': cid, 'data': f} for f in frames]})
+    # HFP line readers
+    for name, dev, data in (
+            ('hf-stray-crlf', 0, b'\r\n'), ('hf-line-without-header', 0, b'XYZ\r\n'),
+            ('hf-unbalanced-paren', 0, b'\r\n+VGS: (1\r\n'), ('hf-not-utf8', 0, b'\r\n\xff\r\n'),
+            ('ag-unbalanced-paren', 1, b'AT+VGS=(1\r'), ('ag-not-a-command', 1, b'ATVTS=1\r'),
+            ('ag-not-utf8', 1, b'\xff\xfeAT+CMEE=1\r'), ('ag-wrong-arity', 1, b'AT+CMEE=1,2,3\r'),
+            ('ag-bad-int', 1, b'AT+CMEE=a\r'), ('ag-empty-lines', 1, b'\r\r\r')):
+        out.append({'name': name, 'target': 'at', 'src': 'directed', 'refs': ['conn', 'at'],
+                    'ops': [{'k': 'at', 'dev': dev, 'data': data.hex()}]})
+    # signalling: too short, unknown code, length mismatch -> echo must still be answered
+    for name, conn, cid, data in (('sig-short', 'br', 1, '0801'), ('sig-unknown-code', 'br', 1, 'c8070000'),
+                                  ('sig-length-mismatch', 'le', 5, '0805ff7f0102'), ('sig-empty', 'le', 5, ''),
+                                  ('sig-config-options-zero-len', 'br', 1, '0409080041000000010001000100')):
+        out.append({'name': name, 'target': f'cid{cid}', 'src': 'directed',
+                    'refs': ['conn', 'echo.' + conn, 'sdp.fresh'],
+                    'ops': [{'k': 'l2cap', 'conn': conn, 'dev': 1, 'cid': cid, 'data': data}]})
+    # ACL fragments: start without end, continuation without start, invalid flag, then echo
+    echo = bytes([0x08, 0x21, 3, 0, 1, 2, 3])
+    for name, frags in (('frag-start-only', [[2, 5]]), ('frag-continuation-only', [[1, 11]]),
+                        ('frag-invalid-flag', [[3, 11]]), ('frag-split-ok', [[2, 3], [1, 8]]),
+                        ('frag-overlong', [[2, 11], [1, 0]])):
+        out.append({'name': name, 'target': 'frag', 'src': 'directed', 'refs': ['conn', 'att', 'echo.le'],
+                    'ops': [{'k': 'l2cap', 'conn': 'le', 'dev': 1, 'cid': 5, 'data': echo.hex(), 'frags': frags}]})
+    # HCI: empty, type only, truncated event, oversize lengths
+    for name, data in (('hci-empty', ''), ('hci-type-only', '04'), ('hci-event-truncated', '040e0a01'),
+                       ('hci-acl-short', '0201'), ('hci-acl-length-lie', '02012004000100'), ('hci-unknown-type', '7f0102'),
+                       ('hci-le-meta-empty', '043e00'), ('hci-iso-short', '05010000')):
+        out.append({'name': name, 'target': 'hci', 'src': 'directed', 'refs': ['conn', 'att', 'echo.le', 'echo.br'],
+                    'ops': [{'k': 'hci', 'dev': 1, 'data': data}]})
+    return out
+
+
+def load_corpus():
+    out = []
+    if os.path.isdir(CORPUS_DIR):
+        for fn in sorted(os.listdir(CORPUS_DIR)):
+            if fn.endswith('.json'):
+                with open(os.path.join(CORPUS_DIR, fn)) as f:
+                    obj = json.load(f)
+                for c in obj.get('cases', [obj.get('case')] if obj.get('case') else []):
+                    c = dict(c)
+                    c.setdefault('name', fn[:-5])
+                    c['src'] = 'corpus'
+                    out.append(c)
+    return out
+
+
+def is_terminal(case):
+    return 'pair' in case['refs']
+
+
+async def _segment(cases, start, flavour, sink):
+    """One world: run cases[start:] until a violation, a terminal case or WORLD_LIFETIME.
+    sink(case, res, history) is called per case.  Returns the next index."""
+    from bumble import core
+    w = await World().build(with_hfp=flavour)
+    n0 = len(core.UUID.UUIDS)
+    history = []
+    i = start
+    while i < len(cases):
+        case = cases[i]
+        i += 1
+        seen0 = (len(w.l2cap_seen[0]), len(w.l2cap_seen[1]))
+        res = await run_case(w, case)
+        res['reaction'] = (len(w.l2cap_seen[0]), len(w.l2cap_seen[1])) != seen0 or res['exc'] != 'none'
+        if res['verdict'] is None and not is_terminal(case):
+            battery = [r for r in FULL_BATTERY if r not in case['refs'] or r in ('conn',)]
+            if case['target'] in SIGNALLING_TARGETS:
+                # signalling can legitimately re-negotiate or close dynamic channels
+                battery = [r for r in battery if r in ('conn', 'att', 'echo.le', 'echo.br')]
+            bad = await w.reference(battery)
+            if bad:
+                res['verdict'] = 'connection lost' if bad[0] == 'conn' else f'reference request failed ({bad[0]})'
+                res['detail'] = 'afterwards, on another protocol: ' + bad[1]
+        sink(case, res, list(history))
+        _trim_uuid_registry(n0)
+        history.append(case)
+        if res['verdict'] or is_terminal(case) or len(history) >= WORLD_LIFETIME or case['target'] in SIGNALLING_TARGETS:
+            break
+    return i
+
+
+def run_cases(cases, sink):
+    """Run the cases grouped by world flavour (with / without HFP on the RFCOMM channel)."""
+    for flavour in (True, False):
+        group = [c for c in cases if c.get('hfp', True) == flavour]
+        i = 0
+        while i < len(group):
+            i = asyncio.run(_segment(group, i, flavour, sink))
+
+
+def replay_sequence(history, case):
+    """history + case in one fresh world -> result of the last case."""
+    out = {}
+
+    def sink(c, res, h):
+        out['res'] = res
+        out['case'] = c
+    seq = list(history) + [case]
+
+    async def go():
+        from bumble import core
+        w = await World().build(with_hfp=case.get('hfp', True))
+        n0 = len(core.UUID.UUIDS)
+        res = None
+        for c in seq:
+            res = await run_case(w, c)
+            if res['verdict'] is None and c is not seq[-1] and not is_terminal(c):
+                pass
+            if res['verdict'] is None and c is seq[-1] and not is_terminal(c):
+                battery = [r for r in FULL_BATTERY if r not in c['refs'] or r in ('conn',)]
+                if c['target'] in SIGNALLING_TARGETS:
+                    battery = [r for r in battery if r in ('conn', 'att', 'echo.le', 'echo.br')]
+                bad = await w.reference(battery)
+                if bad:
+                    res['verdict'] = 'connection lost' if bad[0] == 'conn' else f'reference request failed ({bad[0]})'
+                    res['detail'] = 'afterwards, on another protocol: ' + bad[1]
+            _trim_uuid_registry(n0)
+            if res['verdict'] and c is not seq[-1]:
+                break
+        return res
+    return asyncio.run(go())
+
+
+def campaign(ctx, cases, label='campaign'):
+    stats = {'max_steps': 0, 'max_depth': 0, 'max_ratio': 0.0, 'worlds': 0}
+
+    def sink(case, res, history):
+        key = (case['target'], json.dumps(case['ops'], sort_keys=True))
+        ctx.case(key, res['reaction'],
+                 {'kind': 'injection', 'target': case['target'], 'src': case['src'], 'ops': case['ops'][:1]}
+                 if case['src'] not in ('directed', 'corpus') and len(ctx.samples) < 5 and res['reaction'] else None)
+        ctx.count(f'{label}.cases')
+        ctx.count(f'{label}.target.{case["target"]}')
+        ctx.count(f'{label}.source.{case["src"].split("-")[0] if case["src"].startswith(("recorded", "class")) else case["src"].split(".")[0]}')
+        ctx.count(f'{label}.entry.{op_entry(case["ops"][0])}')
+        ctx.count(f'{label}.exception.{res["exc"]}')
+        stats['max_steps'] = max(stats['max_steps'], res['steps'])
+        stats['max_depth'] = max(stats['max_depth'], res['depth'])
+        stats['max_ratio'] = max(stats['max_ratio'], res['steps'] / (STEP_BASE + STEP_PER_BYTE * res['bytes']))
+        if res['verdict']:
+            sig = signature(case, res)
+            # minimise: does the case alone, in a fresh world, fail the same way?
+            hist = history
+            if history:
+                alone = replay_sequence([], case)
+                if alone['verdict'] and signature(case, alone) == sig:
+                    hist = []
+            ctx.violation(sig, f"{op_entry(case['ops'][0])} <- {case.get('name', case['src'])}: {res['verdict']}: {res['detail']}"
+                               f" (exceptions at injection: {res['excs'][:4]})",
+                          {'hfp': case.get('hfp', True), 'history': hist, 'case': case})
+    run_cases(cases, sink)
+    ctx.extra.setdefault('campaign', {})[label] = {
+        'max_steps_per_injection': stats['max_steps'], 'max_python_depth': stats['max_depth'],
+        'max_fraction_of_step_budget': round(stats['max_ratio'], 4),
+        'step_budget': f'{STEP_BASE} + {STEP_PER_BYTE} * bytes', 'depth_budget': DEPTH_BUDGET}
+
+
+def run(ctx):
+    ctx.rule = (
+        'correspondence: byte strings (boundary lengths, every registered code point of ATT/SMP/L2CAP signalling, '
+        'every SDP element type x size-descriptor form, nesting 0..200, overrun shapes, random and mutated trees, '
+        'HCI data packets with consistent and lying lengths) evaluated by the Coq models (vm_compute) and by the real '
+        'parsers; compared: accept/reject, exception class, parsed value, frames sent, number of parse_next calls. '
+        'campaign: directed witnesses + corpus + generated cases (1-3 injections each: recorded valid traffic of every '
+        'layer mutated by truncate/extend/bit-flip/byte-set/length-tamper/splice, one PDU of every registered class, '
+        'random bytes, SDP nesting/overrun shapes, ACL fragment-flag permutations, malformed AT lines) on Host.on_packet, '
+        'PacketParser.feed_data, every fixed CID on both connections and both devices, the open SDP/RFCOMM/AVDTP/AVCTP '
+        'channels and the HFP AT stream; each under a step and depth budget, followed by reference requests. A campaign '
+        'case is non-trivial when the injection raised or made the device send something; distinct by target and bytes.')
+    ctx.assumptions += [
+        'timers do not fire during a case (the event loop is run to idle, never slept); wall-clock time-outs are not exercised',
+        'asyncio runs a callback atomically; "idle" is an empty ready queue of the CPython event loop',
+        'protocol-valid requests that legitimately close or re-configure a channel (L2CAP Disconnection/Configure '
+        'request for a live CID, second SDP connection, RFCOMM SABM/DISC/DM with a good FCS, HCI Disconnection Complete '
+        'for a live handle) are re-aimed at a dead CID/handle or sent with a bad FCS by the generator',
+        'the process-global UUID registry is cut back between cases',
+    ]
+    ctx.trusted += ['Model/Hostile*.v are hand-written readings of at.py, sdp.py DataElementParser, hci.py/host.py packet '
+                    'decoding and dispatch, l2cap.py control-frame parse / options loop / on_control_frame; tied to the code '
+                    'by differential execution and by the regenerated tables Gen/C17Tables.v',
+                    'sys.settrace line/call events as the measure of work and recursion depth']
+    correspondence(ctx)
+    ctx.log('correspondence done:', ctx.evaluations, 'evaluations,', len(ctx.disagreements), 'disagreements')
+    seeds = asyncio.run(record_seeds())
+    ctx.extra['recorded_seed_pdus'] = {k: len(v) for k, v in sorted(seeds['chan'].items())}
+    ctx.extra['recorded_hci_packets'] = [len(x) for x in seeds['hci']]
+    cases = directed_cases() + load_corpus()
+    gen = Gen(ctx.rng.fork('campaign'), seeds)
+    for _ in range(ctx.n(2200, 40000)):
+        cases.append(gen.case())
+    campaign(ctx, cases)
+    ctx.log('campaign done:', ctx.dist.get('campaign.cases'), 'cases,', len(ctx.violations), 'violations')
+
+
+def search(ctx):
+    """After a broken proof / correspondence: a larger directed campaign on the parsers the
+    models cover (SDP, signalling, ATT/SMP fixed channels, HCI), looking for an input on
+    which the property oracle fails on the implementation."""
+    seeds = asyncio.run(record_seeds())
+    gen = Gen(ctx.rng.fork('search'), seeds)
+    cases = directed_cases()
+    want = ('sdp', 'cid1', 'cid5', 'cid4', 'cid6', 'cid7', 'hci', 'feed', 'at')
+    n = 0
+    while n < ctx.n(3000, 20000):
+        c = gen.case()
+        if c['target'] in want:
+            cases.append(c)
+            n += 1
+    campaign(ctx, cases, label='search')
+
+
+def replay(ctx, obj):
+    r = obj['replay']
+    res = replay_sequence(r.get('history', []), r['case'])
+    print('entry point :', op_entry(r['case']['ops'][0]))
+    print('injections  :', json.dumps(r['case']['ops']))
+    print('history     :', len(r.get('history', [])), 'earlier cases in the same world')
+    print('exceptions  :', res['excs'])
+    print('steps/depth :', res['steps'], res['depth'])
+    print('oracle      :', (res['verdict'] + ': ' + res['detail']) if res['verdict'] else 'holds')
+    if res['verdict']:
+        print('signature   :', signature(r['case'], res))
+    return 0
